@@ -56,7 +56,7 @@ VARIABLES
   faults,    \* injected faults so far
   starts,    \* process starts so far
   discarded, \* [Fans -> BOOLEAN] the user discarded the stored data since it was stored
-  had        \* [Fans -> BOOLEAN] RPM curve and PWM map were both stored when the process started
+  had        \* [Fans -> [data, map]] what was stored (or configured: map) when the process started
 
 dvars == <<cf, ph, pwm, mode, orig, reg, mtx, ctx, proc, sigs, db, cnt, ana, faults, starts, discarded, had>>
 
@@ -79,7 +79,7 @@ DInit(c) ==
   /\ ana = [f \in cf.fans |-> FALSE]
   /\ faults = 0 /\ starts = 0
   /\ discarded = [f \in cf.fans |-> FALSE]
-  /\ had = [f \in cf.fans |-> FALSE]
+  /\ had = [f \in cf.fans |-> [data |-> FALSE, map |-> FALSE]]
 
 Running == proc = "run"
 
@@ -93,7 +93,7 @@ Start ==
   /\ cnt' = [f \in cf.fans |-> [sweeps |-> 0, meas |-> 0]]
   /\ ana' = [f \in cf.fans |-> FALSE]
   /\ mtx' = "none" /\ ctx' = "live" /\ sigs' = 0
-  /\ had' = [f \in cf.fans |-> db[f].data /\ (db[f].map \/ cf.cfgMap[f])]
+  /\ had' = [f \in cf.fans |-> [data |-> db[f].data, map |-> db[f].map \/ cf.cfgMap[f]]]
   /\ UNCHANGED <<pwm, mode, orig, db, faults, discarded>>
 
 \* Run 123-137: remember the fan's PWM value and control mode
